@@ -28,6 +28,8 @@ CONFIG = {
               "and every stream of that law runs on the model's sample_node, respects choices_ok and yields the listed outcome. "
               "NOT proved: uniformity for amount k > 1 (statement and missing lemmas in a comment in Props/C07.v: multinomial/uniform-permutation distribution monad and the block-pattern counting lemma). "
               "Outside the model, only exercised: Pcg32, the f64 weights, rand_distr Binomial/WeightedAliasIndex (chi-square with false-alarm probability < 1e-12, a statistical test, not a proof). "
+              "Found while proving (not covered by the theorems, no contract-respecting stream exists): an Or node whose non-zero-temp children are all hidden true nodes "
+              "(check_wf-accepted c2d input 'nnf 4 3 1 / L 1 / A 0 / O 0 1 1 / A 2 0 2', MCA = 1) makes the Rust panic in WeightedAliasIndex::new(empty).unwrap(); the model has no Panic outcome there and the generators do not produce it. "
               "Correspondence: every real run's recorded choices are replayed by the extracted model and must give the identical sample list, and the extracted choices_ok (urs_choices_okb) is evaluated on every recorded stream",
     "assumptions": ["hook H2 records the split vectors and shuffle permutations of the real run (the shuffle permutation is computed on a clone of the generator)",
                     "rand/rand_distr/rand_pcg are trusted to implement their contracts"],
